@@ -13,6 +13,10 @@ pats = sys.argv[1:] or ["*"]
 env = dict(os.environ)
 for k in ("GOTOOLCHAIN", "GOSUMDB", "GOFLAGS"):
     env.pop(k, None)
+# the verdict (detected or not, and by which signatures) is what matters here, not a fully
+# minimised replay: shorter shrinking and stop after the first batch with a violation
+env["VERIF_SHRINKTIME"] = "3s"
+env["VERIF_STOP_AFTER_FIRST"] = "1"
 
 def sh(cmd, cwd=None, timeout=7200):
     p = subprocess.run(cmd, shell=True, cwd=cwd, capture_output=True, text=True, timeout=timeout, env=env)
